@@ -72,9 +72,12 @@ def gen_uid_case(rng: random.Random, tier: str, backends=('dict',)) -> dict:
                 acts.append({'sess': sess, 'kind': 'store', 'set': '*',
                              'op': '+', 'flags': ['\\Deleted'],
                              'silent': True, 'then_expunge': True})
-            elif k < 0.9:
+            elif k < 0.86:
                 acts.append({'sess': sess, 'kind': 'select',
                              'mailbox': rng.choice(names)})
+            elif k < 0.9:
+                # housekeeping of the selected mailbox's UID list
+                acts.append({'sess': sess, 'kind': 'check'})
             else:
                 acts.append({'sess': sess, 'kind': 'status',
                              'mailbox': rng.choice(names),
